@@ -143,6 +143,19 @@ Theorem C08_dry_run_issuance : forall rb,
 Proof. exact dry_run_issuance_phantom. Qed.
 Print Assumptions C08_dry_run_issuance.
 
+(** The assumptions the model transcribes hold in the source as it is now
+    (regenerated by lib/extract_c08.py - from the shape of the source, or, when
+    the shape is not recognised, from the behaviour of the built code on the
+    witness scenarios): nextAddresses touches indices / last addresses / cache
+    only in its registered OnCommit closure; extendAddresses and RenameAccount
+    (both account-row kinds) update memory before commit. *)
+Theorem C08_model_assumptions_hold_in_source :
+  next_commits_memory_in_closure = true /\
+  extend_updates_memory_eagerly = true /\
+  rename_updates_cached_name = true.
+Proof. repeat split; reflexivity. Qed.
+Print Assumptions C08_model_assumptions_hold_in_source.
+
 (** Non-vacuity. *)
 
 (** A history OUTSIDE K that mixes committed and rolled-back transactions
